@@ -67,4 +67,41 @@ def interpND (alignCorners nearest : Bool) (shape : List Nat) (img : Nat → Rat
     if idx.length = shape.length ∧ (idx.zip shape).all (fun (i, s) => decide (0 ≤ i ∧ i < (s : Int)))
     then img (ravel shape (idx.map Int.toNat)) else 0)
 
+/-! ### padding modes of `grid_sample` (coordinate maps applied after un-normalisation; `zeros` leaves the coordinate alone) -/
+
+/-- `clip_coordinates`: clamp to `[0, n-1]` -/
+def clipCoord (n : Nat) (c : Rat) : Rat := max 0 (min ((n : Rat) - 1) c)
+
+/-- `reflect_coordinates(in, twice_low, twice_high)` -/
+def reflectCoord (twiceLow twiceHigh : Int) (c : Rat) : Rat :=
+  if twiceLow = twiceHigh then 0
+  else
+    let mn : Rat := (twiceLow : Rat) / 2
+    let span : Rat := ((twiceHigh - twiceLow : Int) : Rat) / 2
+    let a := if c - mn < 0 then -(c - mn) else c - mn
+    let flips : Int := (a / span).floor
+    let extra : Rat := a - (flips : Rat) * span        -- fmod(a, span) for a ≥ 0, span > 0
+    if flips % 2 = 0 then extra + mn else span - extra + mn
+
+/-- coordinate map of a padding mode: 0 = zeros, 1 = border, 2 = reflection (followed by the clip, as in torch) -/
+def padCoord (mode : Nat) (alignCorners : Bool) (n : Nat) (c : Rat) : Rat :=
+  match mode with
+  | 1 => clipCoord n c
+  | 2 => clipCoord n (if alignCorners then reflectCoord 0 (2 * ((n : Int) - 1)) c else reflectCoord (-1) (2 * (n : Int) - 1) c)
+  | _ => c
+
+/-- `interpND` with a padding mode -/
+def interpNDP (mode : Nat) (alignCorners nearest : Bool) (shape : List Nat) (img : Nat → Rat) (coordsXYZ : List Rat) : Rat :=
+  let coords := coordsXYZ.reverse
+  let rec go (shape : List Nat) (coords : List Rat) (get : List Int → Rat) : Rat :=
+    match shape, coords with
+    | n :: srest, c :: crest =>
+      let f : Int → Rat := fun i => go srest crest (fun idx => get (i :: idx))
+      let cc := padCoord mode alignCorners n (unnorm alignCorners n c)
+      if nearest then nearestAt n f cc else lerpAt n f cc
+    | _, _ => get []
+  go shape coords (fun idx =>
+    if idx.length = shape.length ∧ (idx.zip shape).all (fun (i, s) => decide (0 ≤ i ∧ i < (s : Int)))
+    then img (ravel shape (idx.map Int.toNat)) else 0)
+
 end M
